@@ -31,6 +31,9 @@ META = {
 }
 
 THEOREMS = [
+    "C08_recompress_full",
+    "C08_keep_own_values",
+    "C08_keep_own_unedited",
     "C08_expand",
     "C08_expand_zero_count_refuted",
     "C08_recompress",
@@ -178,6 +181,9 @@ def apply_edits(vals, edits):
             del vals[e[1]]
         elif op == "ins":
             vals.insert(min(e[1], len(vals)), sn.ValueNode(e[2], float))
+        elif op == "copyall":
+            # what the data-block importances do: hand in copies of the nodes, none of them a node of the list
+            vals = [copy.deepcopy(v) for v in vals]
         elif op == "insj":
             vals.insert(min(e[1], len(vals)), sn.ValueNode(mp.montepy.Jump(), float))
     return vals
@@ -224,6 +230,7 @@ def _run_impl(case):
         vals = apply_edits(list(ln), edits)
         shortcuts = list(ln._shortcuts)
         sidof = {id(s): k for k, s in enumerate(shortcuts)}
+        own = list(ln)
         mcase = {"op": "update", "shortcuts": [ser_shortcut(s, k, idof) for k, s in enumerate(shortcuts)]}
         ob = {"values": [rat(v.value) if v.value is not None else None for v in vals]}
         try:
@@ -234,6 +241,7 @@ def _run_impl(case):
             res["rounds"].append(ob)
             break
         mcase["vals"] = [ser_leaf(v, idof) for v in vals]
+        mcase["own"] = [ser_leaf(v, idof) for v in own]
         ob["items"] = [
             {"sc": sidof.get(id(n), -1), "kind": KIND[n._type.value], "nodes": [idof(x) for x in n.nodes]}
             if isinstance(n, sn.ShortcutNode)
@@ -436,7 +444,7 @@ def gen_random(rng, i):
     nvals = len(ex) if ex is not None else len(words)
     rounds = []
     for _ in range(rng.choice([1, 1, 2, 3])):
-        edits = []
+        edits = [["copyall"]] if rng.random() < 0.15 else []
         for _ in range(rng.choice([0, 1, 1, 2, 3])):
             r = rng.random()
             pos = rng.randrange(nvals + 1)
@@ -485,6 +493,10 @@ CORPUS = [
     {"unit": "listnode", "text": "1 2i 4", "rounds": [[["set", 1, 2.5]]]},
     {"unit": "listnode", "text": "1 2i 4 3m", "rounds": [[["set", 3, 5.0]]]},
     {"unit": "listnode", "text": "1 2i 4 2 2 r", "rounds": [[["set", 2, 2.0], ["set", 3, 2.0]]]},
+    # the list handed in as copies of its own nodes (fix 70989d6)
+    {"unit": "listnode", "text": "0.5 1.0 2r 4 1.0 1.0", "rounds": [[["copyall"]]]},
+    {"unit": "listnode", "text": "0.5 1.0 2r 4 1.0 1.0", "rounds": [[["copyall"], ["set", 2, 5.0]]]},
+    {"unit": "listnode", "text": "1 2i 4 j 2m", "rounds": [[["copyall"]], [["copyall"], ["del", 1]]]},
     # entry behind a line break (fix 3dc089c)
     {"unit": "listnode", "text": "4.\n", "rounds": [[["insj", 1], ["insj", 2], ["ins", 3, "0.5"]]]},
     {"unit": "listnode", "text": "1 2r\n", "rounds": [[["ins", 3, "7.5"]]]},
